@@ -14,7 +14,7 @@ func fmtRules() []*Rule {
 		{ID: "FMT-spill", Props: []string{"C14", "C01", "C02"}, Min: 10,
 			Doc: "local-payload computation equals fileformat2 §1.6: X = U−35 (table leaf) / ((U−12)·64/255)−23 (index cells, both kinds identical), M = ((U−12)·32/255)−23, K = M+((P−M) mod (U−4)), choice P≤X→P, K≤X→K, else M; overflow pointer = 4 bytes after the local part",
 			Run: runSpill},
-		{ID: "FMT-overflow", Props: []string{"C14", "C01", "C02"}, Min: 4,
+		{ID: "FMT-overflow", Props: []string{"C14", "C01", "C02", "C08", "C13", "C03", "C18"}, Min: 4,
 			Doc: "overflow page layout: next pointer = big-endian bytes 0..3, content from byte 4 to the end of the page; whole pages are appended (so the append cannot write into the cached page's spare capacity); result cut to the declared length",
 			Run: runOverflow},
 		{ID: "REC-table", Props: []string{"C14", "C01"}, Min: 14,
@@ -922,7 +922,7 @@ func runVarint(c *Ctx) {
 }
 
 func fmtPageRule() *Rule {
-	return &Rule{ID: "FMT-page", Props: []string{"C01", "C02", "C14"}, Min: 12,
+	return &Rule{ID: "FMT-page", Props: []string{"C01", "C02", "C14", "C03", "C13", "C04"}, Min: 12,
 		Doc: "b-tree page and cell layout per fileformat2 §1.6: page type codes 13/5/10/2 select the right page kind; cell count at header bytes 3..4, right-most pointer at 8..11, cell pointer array at 8 (leaf) / 12 (interior), header at byte 100 on page 1, cell offsets relative to the page start; cell formats: table leaf = varint length, varint rowid, payload; table interior = 4-byte child, varint key; index leaf = varint length, payload; index interior = 4-byte child, varint length, payload",
 		Run: runFmtPage}
 }
@@ -1001,13 +1001,14 @@ func runFmtPage(c *Ctx) {
 			continue
 		}
 		paths, _ := EnumLits(fn.Blocks[0], 0, TabOpts{Termer: t, EventOf: callEvents(p)})
+		// every successful parse (the error result is nil) must be the format's one; a variant that parses some cells
+		// differently (say, the key of a long cell from a shortened slice) shows up as a second successful shape
 		best := ""
-		n := 0
+		nOK := 0
 		for _, lp := range paths {
-			if lp.Exit == nil {
+			if lp.Exit == nil || len(lp.Exit.Results) < 2 || !cleanPathLoose(lp) || retErrDefinitelyNonNil(lp, t) {
 				continue
 			}
-			// the complete parse: the path on which every guard passed (the longest event sequence)
 			var stores []string
 			for _, e := range lp.Events {
 				if e.Kind == "store" && e.Name != "[]" {
@@ -1015,9 +1016,13 @@ func runFmtPage(c *Ctx) {
 				}
 			}
 			s := reGen.ReplaceAllString(strings.Join(travSeq(lp), " ; "), "") + " ⇒ " + strings.Join(stores, " ")
-			if len(lp.Events) >= n {
-				n, best = len(lp.Events), s
+			nOK++
+			if best == "" || s != want {
+				best = s
 			}
+		}
+		if nOK == 0 {
+			best = "(no successful parse)"
 		}
 		c.Check(best == want, "cell "+name, fn.Pos(), "cell is parsed as [%s]; the format requires [%s]", best, want)
 	}
